@@ -245,6 +245,9 @@ pub fn registry() -> Vec<TypeEntry> {
         TypeEntry::ts::<Foo>("Foo", "Foo"),
         TypeEntry::ts::<FooBar>("FooBar", "FooBar"),
         TypeEntry::ts::<Foo1<u8>>("Foo1", "Foo1<u8>"),
+        // further instantiations of the same declaration; their arguments live in other files
+        TypeEntry::ts::<Foo1<UJ>>("Foo1#uj", "Foo1<UJ>"),
+        TypeEntry::ts::<Foo1<Vec<UK>>>("Foo1#vuk", "Foo1<Vec<UK>>"),
         TypeEntry::ts::<Fo>("Fo", "Fo"),
         TypeEntry::ts::<Foo10>("Foo10", "Foo10"),
         TypeEntry::ts::<AZero>("A0", "AZero"),
